@@ -111,6 +111,9 @@ def _tn(rng):
 def _gen_parse(rng, cfg):
     src = rng.random()
     ext = corpus.extracted() if cfg["use_extracted"] else []
+    if rng.random() < cfg.get("p_grammar", 0.0):
+        # seeded query grammar over the harness schema: joins of every kind, derived tables/CTEs that join, correlated subqueries, DNF filters
+        return {"k": "parse", "sql": corpus.gen_schema_query(rng), "dialect": None}
     if ext and src < 0.45:
         if rng.random() < 0.5:
             strata = corpus.extracted_strata()
@@ -157,10 +160,44 @@ def generate(prop, run_seed, tier):
         "rule_ok": "failing_rule" in faults or rng.random() < 0.5,
         "hot_dialects": rng.sample(SQL_DIALECTS, 3),
     }
-    ops = [_gen_parse(rng, cfg) for _ in range(rng.randint(1, 3))]
+    shape = rng.random()
+    cfg["p_grammar"] = rng.choice([0.0, 0.15, 0.4])
+    if shape < (0.3 if mode == "C08" else 0.08):
+        # optimizer-shaped run: one qualifiable query, qualify, then rules in the optimizer's own order (a random subset, or one
+        # rule alone), with cache-populating reads in between; the generic op mix follows on the result
+        cfg["p_grammar"] = 0.7
+        cfg["shape"] = "pipeline"
+        ops = [_gen_parse(rng, dict(cfg, use_extracted=False))]
+        if ops[0]["dialect"] is not None or rng.random() < 0.15:
+            fixq = corpus.optimizer_fixture_queries(max_len=400) if rng.random() < 0.5 else []
+            ops = [{"k": "parse", "sql": rng.choice(fixq)[1] if fixq else rng.choice(corpus.SCHEMA_QUERIES), "dialect": None}]
+        use_schema = rng.random() < 0.9
+
+        def reads():
+            return [{"k": rng.choice(["hash", "hash_all", "hash_all"]), "t": 0, "n": rng.randrange(4096)} for _ in range(rng.choice([0, 0, 1, 2]))]
+
+        ops += reads() + [{"k": "rule", "t": 0, "rule": "qualify", "schema": True, "dialect": "origin"}]
+        post = RULE_NAMES[1:]
+        if rng.random() < 0.5:
+            # each of several rules alone, on its own copy of the merely qualified tree (what a user composing their own rule
+            # list gets); the rewriting rules are favoured
+            fan = rng.sample(sorted(NEEDS_QUALIFIED), rng.randint(1, 5)) if rng.random() < 0.8 else rng.sample(post, rng.randint(1, 5))
+            for i, r_ in enumerate(fan):
+                ops += [{"k": "copy", "t": 0, "n": 0, "how": rng.choice(["copy", "copy", "deepcopy", "pickle"])}]
+                ops += [{"k": rng.choice(["hash", "hash_all"]), "t": i + 1, "n": rng.randrange(4096)}] if rng.random() < 0.4 else []
+                ops += [{"k": "rule", "t": i + 1, "rule": r_, "schema": use_schema, "dialect": "origin"}]
+        else:
+            pr = rng.choice([0.3, 0.6, 1.0])
+            for r_ in [r_ for r_ in post if rng.random() < pr]:
+                ops += reads() + [{"k": "rule", "t": 0, "rule": r_, "schema": use_schema, "dialect": "origin"}]
+        ops += reads()
+    else:
+        ops = [_gen_parse(rng, cfg) for _ in range(rng.randint(1, 3))]
     keys = sorted(weights)
     wl = [weights[k] for k in keys]
     n = rng.randint(8, 60 if tier == "quick" else 90)
+    if cfg.get("shape") == "pipeline":
+        n = rng.randint(0, 12)
     for _ in range(n):
         g = rng.choices(keys, wl)[0]
         fault_now = bool(faults) and rng.random() < cfg["fault_rate"]
@@ -528,9 +565,7 @@ def _apply(world, op, st):
                 return res
             n.replace([world.value(op["v"][0]), n])  # "insert a sibling before me"
         else:
-            if n.index is None:
-                res["outcome"] = "skip-notlist"
-                return res
+            # on a scalar child this is redirected to the nearest ancestor that is a list element (or is a no-op if there is none)
             n.replace([world.value(op["v"][0]), world.value(op["v"][1])])
         if w not in ("self", "list_self") and op["keep_old"] and n.parent is None:
             world.pool.append(n)
@@ -776,6 +811,7 @@ def _apply(world, op, st):
             res["targets"] = set(); res["mut_tree"] = None; res["nm"] = [t]
             return res
         st["counters"]["rule_applied"] += 1
+        st["counters"]["rule:" + op["rule"]] = st["counters"].get("rule:" + op["rule"], 0) + 1
         try:
             r = _call_rule(op["rule"], t, op["schema"], d)
         except RecursionError:
@@ -1171,7 +1207,7 @@ def execute(record, state=None):
         "probes": probes,
         "population": "faulted" if cfg["faults"] else "fault_free",
         "situations": sorted(situations),
-        "counters": {"stopped_by_other_property": 1 if other_prop else 0, "rule_applied": st["counters"]["rule_applied"]},
+        "counters": dict(st["counters"], stopped_by_other_property=1 if other_prop else 0),
     }
 
 
